@@ -1,6 +1,7 @@
 #!/usr/bin/env python3
 """C04 - raw VBI decoding recovers every standard signal bit-exactly, on the right line.
 
+Round 2 theorems: lean/ZvbiModel/Props/C04Bits.lean (lemmas Slicer/Bits*.lean, Rawdec/Svc*.lean).
 Model: lean/ZvbiModel/Rawdec/{Model,SliceModel,Spec}.lean (pattern/job bookkeeping of raw_decoder.c and
 sampling_par.c as a state machine over add/remove/decode histories; value-level models of the three bit
 slicers on an abstract sample sequence).  Theorems: lean/ZvbiModel/Props/C04.lean.
@@ -188,25 +189,31 @@ def parse_recs(tokens):
 class C04(verif.Spec):
     prop = "C04"
     comp = "rawdec"
-    lean_modules = ["ZvbiModel.Props.C04"]
+    lean_modules = ["ZvbiModel.Props.C04", "ZvbiModel.Props.C04Bits"]
     harness = "rawdec_harness"
     timeout_per_case = 6.0
     partial_note = ("proved: the discrete logic (pattern/job bookkeeping invariant over every add/remove/decode history, "
                     "decode_pattern incl. move-to-front, one record per line / right service / line numbers / blank / "
-                    "nothing beyond count for every slicer behaviour, payload stage of all three slicers exact under the "
-                    "eye-open hypothesis). NOT proved: that io-sim's floating point waveform satisfies eye-open for every "
+                    "nothing beyond count for every slicer behaviour, payload stage of all three slicers exact in all four "
+                    "endian modes under the eye-open hypothesis, CRI search window exact, line/field/memory line of every row, "
+                    "services = union of pairwise disjoint job ids, <= 7 jobs, remove leaves no requested id - all histories of "
+                    "the repaired code). NOT proved: that io-sim's floating point waveform satisfies eye-open for every "
                     "rate, offset, format and payload - sampled by the oracle (frame/decode/slice ops)")
     assumptions = ["IEEE double comparisons of _vbi_sampling_par_permit_service (signal length vs sampled length) agree with "
                    "exact rational arithmetic (validated by correspondence)",
                    "phase_shift double arithmetic = exact rational floor (C05)",
                    "threshold arithmetic stays inside 32 bits as analysed in NOTES/C04.md (validated by correspondence on "
                    "noise and saturated images)"]
-    open_statements = ["ids_within_services_full (false on the released remove_services: ids_counterexample; holds on the "
-                       "repaired code in every generated history, not proved)",
-                       "services_have_jobs_full (false on the released remove_services: services_counterexample)",
-                       "armed_reachable_full (false on the released remove_job_from_pattern: armed_counterexample)",
-                       "slice_exact for the bitwise modes (endian 2/3: WSS 625) and for the LSB octet mode of the low-pass and "
-                       "legacy slicers: stated in NOTES/C04.md, validated by correspondence only",
+    open_statements = ["armed_reachable_full Fixes.all (every row of every reachable pattern keeps its jobs first and the marker "
+                       "in the last way): false on the released code (armed_counterexample); for the repaired code it needs "
+                       "add_accepts_all_full, not proved",
+                       "add_accepts_all_full (Props/C04Bits.lean: add_services never drops an accepted service - neither the "
+                       "MAX_JOBS break nor 'Out of decoder pattern space' is reachable with the real table): the MAX_JOBS half is "
+                       "proved (add_accepts_all_partial, job_ids_disjoint_at_most_7: at most 7 jobs); missing: positive entries "
+                       "of a row stay pairwise distinct over all histories.  NOTE 7 (not 6) jobs can share a line "
+                       "(corpus/C04/seven-jobs-one-line.ops)",
+                       "ids_within_services_full as literally stated in Props/C04.lean (no hypothesis): proved with the explicit "
+                       "hypothesis that the history did not run into the set_params assertion (ids_within_services)",
                        "waveform_eye_open (io-sim's rendering satisfies the eye-open hypothesis for all rates/offsets/"
                        "formats/payloads): not formalisable here, sampled by the oracle; FALSE in the domains of F65-F70"]
     trusted_base = ["translate/gen_rawdec.py (recognises applied repairs; a wrong flag shows as model~code disagreement)",
@@ -563,6 +570,163 @@ class C04(verif.Spec):
             cases.append(c)
         return cases
 
+    # ------------------------------------------------------------------ round 2 generators
+    CC_IDS = {625: (0x8, 0x10), 525: (0x20, 0x40)}
+
+    @staticmethod
+    def cc_end_us(sid):
+        """end of the last data bit of a nominal caption line (EIA 608-B timing as io-sim renders it: first start
+        bit edge at 10.5 us + 6.5 D - 0.12 us, 19 further bit periods D)"""
+        return 10.38 + 25.5e6 / BITRATE[sid]
+
+    def tight_sp(self, rng, scanning, fmt, rate, eps, single=None):
+        """sampling parameters whose lines END `eps` us after the last caption bit: the signal lies inside the line,
+        the slicer has to find the CRI at (nearly) the last position its search window admits"""
+        ids = self.CC_IDS[scanning]
+        start_us = 10.0 - 0.25 - rng.choice([0.3, 0.6, 1.0, 2.0]) * rng.random() - 0.3
+        offset = max(1, int(start_us * rate / 1e6))
+        end_us = max(self.cc_end_us(i) for i in ids) + eps
+        spl = int(end_us * rate / 1e6) + 1 - offset
+        if fmt in (2, 3, 4, 5) and spl % 2:
+            spl += 1
+        l0, l1 = (22, 335) if scanning == 625 else (21, 284)
+        if single is None:
+            sp = Sp(scanning, fmt, rate, spl, offset, l0, 1, l1, 1, rng.choice([0, 1]), 1, 0)
+        elif single == 0:
+            sp = Sp(scanning, fmt, rate, spl, offset, l0, 1, 0, 0, 0, 1, 0)
+        else:
+            sp = Sp(scanning, fmt, rate, spl, offset, 0, 0, l1, 1, 0, 1, 0)
+        return sp
+
+    TIGHT_EPS = (0.02, 0.05, 0.1, 0.2, 0.35, 0.5, 0.8, 1.2)
+    TIGHT_RATES = (27000000, 28636362, 35468950, 25300000)
+
+    def gen_tight(self, rng, reps):
+        """every pixel format x caption services (low-pass slicer from 25.2 MHz) x line ends sweeping down to the last
+        bit: new and old decoder interface (frame ops) and both stand-alone slicers (slice ops)"""
+        cases, plans, dplans = [], [], []
+        for rep in range(reps):
+            for fmt in FMTS:
+                scanning = rng.choice([625, 625, 525])
+                rate = rng.choice(self.TIGHT_RATES + (rng.randrange(25300000, 45000000),))
+                eps = rng.choice(self.TIGHT_EPS)
+                ids = self.CC_IDS[scanning]
+                # --- raw decoder, both APIs.  625: nominal `frame` ops (the model predicts the records); 525 caption
+                # at low-pass rates is the domain of F70, where the nominal prediction is not valid: concrete images
+                sp = self.tight_sp(rng, scanning, fmt, rate, eps)
+                iface = rng.choice([3, 3, 2])
+                head = [sp.par(iface), "add 0x%x %d" % (ids[0] | ids[1], rng.choice([0, 0, 1]))]
+                frames = []
+                for _f in range(rng.randrange(2, 4)):
+                    tx = [(ids[0], 0, self.payload(rng, ids[0])), (ids[1], 1, self.payload(rng, ids[1]))]
+                    if rng.random() < 0.3:
+                        tx = [rng.choice(tx)]
+                    frames.append(tx)
+                if scanning == 625:
+                    cases.append(head + ["frame %d 0 %d %s" % (sp.lines(), rng.randrange(1, 1 << 31),
+                                                              " ".join(rec_tok(t) for t in tx)) for tx in frames])
+                else:
+                    for tx in frames:
+                        dplans.append((sp, tx, 0, rng.randrange(1, 1 << 31), head))
+                # --- stand-alone slicers on one tight line
+                f = rng.randrange(2)
+                sid = ids[f]
+                sp1 = self.tight_sp(rng, scanning, fmt, rate, rng.choice(self.TIGHT_EPS), single=f)
+                plans.append((sp1, [(sid, 0, self.payload(rng, sid))], 0, rng.randrange(1, 1 << 31), sid))
+        cases = self.settle(cases)
+        dimgs = self.render_pass([(p[0], p[1], p[2], p[3]) for p in dplans])
+        byhead = {}
+        for p, img in zip(dplans, dimgs):
+            if img is None:
+                continue
+            c = byhead.setdefault(id(p[4]), list(p[4]))
+            c += ["expect " + " ".join(rec_tok(t) for t in p[1]), "decode %d %s" % (p[0].lines(), hexs(img))]
+        cases += list(byhead.values())
+        imgs = self.render_pass([(p[0], p[1], p[2], p[3]) for p in plans])
+        for p, img in zip(plans, imgs):
+            if img is None:
+                continue
+            sp, tx, _, _, sid = p
+            c = []
+            for variant in (3, 2):
+                c.append("expect " + rec_tok(tx[0]))
+                c.append("slice %d %d %d %d %d - %s" % (variant, sp.fmt, sp.rate, sp.spl, SVC[sid]["row"], hexs(img)))
+            # one sample shorter / longer lines: no expectation, model and code must agree on the window
+            bpp = bpp_of(sp.fmt)
+            for cut in (1, 2, 7, 16, 31, 46):
+                if sp.spl - cut > 64 and not (sp.fmt in (2, 3, 4, 5) and cut % 2):
+                    c.append("slice %d %d %d %d %d - %s" % (rng.choice([3, 2]), sp.fmt, sp.rate, sp.spl - cut, SVC[sid]["row"],
+                                                          hexs(img[:(sp.spl - cut) * bpp])))
+            cases.append(c)
+        return cases
+
+    TIE_FMTS = (1, 2, 4, 36, 32, 33)
+
+    def gen_ties(self, rng, n):
+        """decision ties: the tail of a rendered line is replaced by a constant level L; the real code tells (bisection
+        over L, eight harness passes) at which L the sliced tail bits switch from 0 to 1, the case then slices L-1, L,
+        L+1 - at L equal to the slicer's threshold `raw0 >= tr` and `raw0 > tr` differ in every tail bit"""
+        plans = []
+        for _ in range(n):
+            sid = rng.choice([0x400, 0x400, 0x4, 0x3, 0x8, 0x20, 0x10000])
+            fmt = rng.choice(self.TIE_FMTS)
+            sp, _ = self.gen_sp(rng, SVC[sid]["scan"], [sid], fmt, clean=True)
+            f = 0 if SVC[sid]["l0"] else 1
+            line = (SVC[sid]["l0"] or SVC[sid]["l1"])[0]
+            sp.sync, sp.il, sp.bpl = 1, 0, sp.spl * bpp_of(fmt)
+            if f == 0:
+                sp.s0, sp.c0, sp.s1, sp.c1 = line, 1, 0, 0
+            else:
+                sp.s0, sp.c0, sp.s1, sp.c1 = 0, 0, line, 1
+            plans.append((sp, [(sid, 0, self.payload(rng, sid))], 0, rng.randrange(1, 1 << 31), sid))
+        imgs = self.render_pass([(p[0], p[1], p[2], p[3]) for p in plans])
+        items = []
+        for p, img in zip(plans, imgs):
+            if img is None:
+                continue
+            sp, tx, _, _, sid = p
+            t_cut = SVC[sid]["t0"] + 0.72 * (SVC[sid]["t1"] - SVC[sid]["t0"])
+            cut = int(t_cut * sp.rate / 1e6) - sp.offset
+            if not (8 < cut < sp.spl - 8):
+                continue
+            for variant in (3, 2):
+                items.append(dict(sp=sp, sid=sid, img=img, cut=cut * bpp_of(sp.fmt), variant=variant, lo=0, hi=255))
+
+        def op(it, L):
+            img = it["img"][:it["cut"]] + bytes([L]) * (len(it["img"]) - it["cut"])
+            sp = it["sp"]
+            return "slice %d %d %d %d %d - %s" % (it["variant"], sp.fmt, sp.rate, sp.spl, SVC[it["sid"]]["row"], hexs(img))
+
+        def run(levels):
+            out = self.run_harness([[op(it, L)] for it, L in zip(items, levels)])
+            res = []
+            for i in range(len(items)):
+                o = out.get(i, [])
+                w = o[0].split() if o else []
+                res.append(w[1] if len(w) >= 3 and w[0] == "ok" and w[1] != "fail" else None)
+            return res
+        if not items:
+            return []
+        r0, r1 = run([0] * len(items)), run([255] * len(items))
+        keep = [i for i in range(len(items)) if r0[i] and r1[i] and r0[i] != r1[i]]
+        items = [items[i] for i in keep]
+        top = [r1[i] for i in keep]
+        for _ in range(8):
+            if not items:
+                break
+            mids = [(it["lo"] + it["hi"]) // 2 for it in items]
+            r = run(mids)
+            for it, m, got, t in zip(items, mids, r, top):
+                if got == t:
+                    it["hi"] = m
+                else:
+                    it["lo"] = m
+        cases = []
+        for it in items:
+            T = it["hi"]
+            cases.append([op(it, L) for L in (T - 2, T - 1, T, T + 1) if 0 <= L <= 255])
+        return cases
+
     def gen_malformed(self, rng, n):
         cases = []
         bad = ["par", "par 625 1 13500000 720 132 7 17 320 17 0 1", "par 625 6 13500000 1440 132 7 17 320 17 0 1 3",
@@ -598,6 +762,8 @@ class C04(verif.Spec):
         cases += self.gen_slices(rng, 300 if q else 4000)
         cases += self.gen_slices(rng, 80 if q else 800, fmts=[33, 35, 32, 34, 36, 37, 4, 5])
         cases += self.gen_malformed(rng, 30 if q else 200)
+        cases += self.gen_tight(rng, 2 if q else 12)
+        cases += self.gen_ties(rng, 24 if q else 200)
         return cases
 
     # ------------------------------------------------------------------ classification / oracle
